@@ -58,7 +58,7 @@ func RunPaths(t *testing.T, property, phase, testName string, n int, budget time
 					hits++
 				}
 			}
-			fmt.Printf("replayed path %d five times: violation reproduced %d/5\n", i, hits)
+			fmt.Fprintf(HarnessOut, "replayed path %d five times: violation reproduced %d/5\n", i, hits)
 			rep.Extra["replay_reproduced_of_5"] = hits
 			rep.Paths, rep.Evaluations, rep.States, rep.Transitions = 5, 5, 1, 5
 		}
@@ -74,11 +74,11 @@ func RunPaths(t *testing.T, property, phase, testName string, n int, budget time
 		for i := 0; i < n; i++ {
 			if strings.Contains(fmt.Sprintf("%+v", describe(i)), only) {
 				run(t, i, rep)
-				fmt.Printf("path %d %+v -> %d violation(s)\n", i, describe(i), rep.ViolationsTotal)
+				fmt.Fprintf(HarnessOut, "path %d %+v -> %d violation(s)\n", i, describe(i), rep.ViolationsTotal)
 			}
 		}
 		for _, v := range rep.Violations {
-			fmt.Println("  ", v.Sig, v.Msg)
+			fmt.Fprintln(HarnessOut, "  ", v.Sig, v.Msg)
 		}
 		return
 	}
